@@ -317,6 +317,9 @@ class TObj(TSpec):
     def src(self, name, model):
         if self._src is not None:
             return self._src
+        if self.attrs:
+            # (no constructor known: the replay gets the attribute values as a dict)
+            return "{" + ", ".join(f"{k!r}: {sp.src(name + '_' + k, model)}" for k, sp in self.attrs.items()) + "}"
         return "None"
 
     def candidates(self, name):
@@ -324,6 +327,19 @@ class TObj(TSpec):
         for k, sp in self.attrs.items():
             out.extend(sp.candidates(f"{name}_{k}"))
         return out
+
+
+class TClass(TSpec):
+    """the repo class itself (the `cls` argument of a classmethod)"""
+
+    def __init__(self, clskey, src="None"):
+        self.clskey, self._src = clskey, src
+
+    def fresh(self, name, path):
+        return path.interp.resolve(self.clskey)
+
+    def src(self, name, model):
+        return self._src
 
 
 def make_obj(interp, clskey, **attrs):
@@ -338,6 +354,7 @@ class T:
     Rot = TRot
     Obj = TObj
     Backend = TBackend
+    Class = TClass
     Int, Real, Bool, Tuple, List, Const, OneOf, Slice, Vec, Arr = (
         TInt, TReal, TBool, TTuple, TList, TConst, TOneOf, TSlice, TVec, TArr)
 
